@@ -181,7 +181,14 @@ class JaxLinearOperator(LinearOperator):
             else:
                 inp = {kk: SimpleNamespace(shape=domain[kk].shape, dtype=domain_dtype[kk])
                        for kk in domain.keys()}
-            func_T = jax.jit(lambda x: jax.linear_transpose(func, inp)(x)[0])
+            out = jax.eval_shape(func, inp)
+
+            def _promote(c, o):
+                # cotangents may arrive with a real dtype (e.g. from a real-part node) although func is complex-valued
+                if jax.numpy.issubdtype(o.dtype, jax.numpy.complexfloating) and not jax.numpy.iscomplexobj(c):
+                    return jax.numpy.asarray(c, dtype=o.dtype)
+                return c
+            func_T = jax.jit(lambda x: jax.linear_transpose(func, inp)(jax.tree_util.tree_map(_promote, x, out))[0])
         elif domain_dtype is None and func_T is not None:
             pass
         else:
